@@ -257,9 +257,12 @@ func init() {
 			add(c09Params{Senders: 2, Lines: 1}, unb, []int{1}, 50, true)
 			add(c09Params{Senders: 2, Lines: 1, ChanCap: 1}, unb, []int{1}, 50, false)
 			add(c09Params{Senders: 2, Lines: 1, Slow: true, ChanCap: 1}, unb, []int{1}, 60, false)
+			add(c09Params{Senders: 2, Lines: 2}, unb, []int{1}, 500, false)
+			add(c09Params{Senders: 2, Lines: 2, Slow: true}, unb, []int{1}, 500, false)
+			add(c09Params{Senders: 2, Lines: 2, ChanCap: 1}, unb, []int{1}, 500, false)
 			if tier == "thorough" {
-				add(c09Params{Senders: 2, Lines: 2}, unb, []int{1}, 500, false)
-				add(c09Params{Senders: 2, Lines: 2, ChanCap: 1}, unb, []int{1}, 500, false)
+				add(c09Params{Senders: 2, Lines: 2, Slow: true, ChanCap: 1}, unb, []int{1}, 500, false)
+				add(c09Params{Senders: 2, Lines: 3, Slow: true}, unb, []int{1}, 500, false)
 				add(c09Params{Senders: 3, Lines: 1}, unb, []int{1}, 500, false)
 				add(c09Params{Senders: 2, Lines: 1, Overlap: true}, unb, []int{1}, 500, false)
 			}
